@@ -154,6 +154,11 @@ func (c *Collector) RecordConnection(endpoint *domain.Endpoint, delta int) {
 			}
 			atomic.StoreInt64(&data.activeConnections, newVal)
 		}
+		if loaded {
+			// the record was changed in place, under the lock: nothing to store (and no new map
+			// entry to allocate on every connection that opens or closes)
+			return data, xsync.CancelOp
+		}
 		return data, xsync.UpdateOp
 	})
 }
